@@ -16,7 +16,7 @@ from .oracles import fd_census
 from .world import DEFAULT_KNOBS, Knobs, Violation, World, make_config, make_pool_specs
 
 MIB = 1024 * 1024
-STREAM_PATHS = ['add_streamed', 'add_streamed_to_pack', 'add_streamed_to_pack_z', 'pack_all_loose', 'pack_all_loose_z', 'repack', 'validate', 'chunked_read', 'chunked_read_z', 'import_streamed', 'add_streamed_dup', 'loosen_z', 'seek_forward_z', 'add_streamed_to_pack_nh', 'pack_all_loose_auto']
+STREAM_PATHS = ['add_streamed', 'add_streamed_to_pack', 'add_streamed_to_pack_z', 'pack_all_loose', 'pack_all_loose_z', 'repack', 'validate', 'chunked_read', 'chunked_read_z', 'import_streamed', 'add_streamed_dup', 'loosen_z', 'seek_forward_z', 'add_streamed_to_pack_nh', 'pack_all_loose_auto', 'import_streamed_z', 'import_streamed_same_z', 'import_streamed_loose', 'import_streamed_same']
 
 
 class PatternStream:
@@ -251,7 +251,7 @@ def run_chunked(lib, world, case, probes):  # pylint: disable=too-many-locals,to
         try:
             # (newline-free contents for the duplicate add: the library re-hashes the existing loose file)
             compressible = path.endswith('_z') or path in ('repack', 'validate', 'add_streamed_dup', 'pack_all_loose_auto')
-            if compressible and case['seed'] % 3:
+            if compressible and case['seed'] % 3 and not path.startswith('import_streamed'):
                 compressible = 'semi'
             stream = PatternStream(size, case['seed'] + idx, compressible=compressible)
             key = stream.digest(case['config']['hash_type'])
@@ -324,11 +324,19 @@ def run_chunked(lib, world, case, probes):  # pylint: disable=too-many-locals,to
             elif path in ('chunked_read', 'chunked_read_z'):
                 prepare_packed(path.endswith('_z'))
                 func = chunked_read
-            elif path == 'import_streamed':
-                prepare_packed(False)
+            elif path.startswith('import_streamed'):
+                # source form: packed plain / packed compressed (the stored length of a very compressible object is far
+                # below the memory budget, its size far above) / loose; destination with the same or another hash type
+                if path.endswith('_loose'):
+                    prepare_loose()
+                else:
+                    prepare_packed(path.endswith('_z'))
                 other = lib.Container(os.path.join(world.root, f'd{idx}'))
-                other.init_container(**dict(case['config'], hash_type='sha1' if case['config']['hash_type'] == 'sha256' else 'sha256'))
-                func = lambda: other.import_objects([key], cont, target_memory_bytes=MIB)  # noqa: E731
+                hash_type = case['config']['hash_type']
+                if '_same' not in path:
+                    hash_type = 'sha1' if hash_type == 'sha256' else 'sha256'
+                other.init_container(**dict(case['config'], hash_type=hash_type))
+                func = lambda: other.import_objects([key], cont, target_memory_bytes=MIB, compress=bool(case['seed'] % 2))  # noqa: E731
             else:
                 raise HarnessError(path)
             max_io, peak = measure(func)
@@ -337,7 +345,7 @@ def run_chunked(lib, world, case, probes):  # pylint: disable=too-many-locals,to
                 raise Violation('unbounded-io-request', f'{path} on a {size // MIB} MiB object issued a single read/write of {max_io} bytes')
             with SIM.quiet():
                 target = other if other is not None else cont
-                if path not in ('import_streamed',):
+                if not path.startswith('import_streamed'):
                     meta = target.get_object_meta(key)
                     if meta.size != size:
                         raise Violation('wrong-size', f'{path}: meta.size={meta.size} expected {size}')
